@@ -552,9 +552,8 @@ class World:
             I = node.mod("beyond.utils.interp").Interp
             f1 = I(xs_, pos_, method, order)
             f2 = I(xs_, vel_, method, order)  # a second interpolator on the same grid array
-            out = []
-            for q in queries:
-                out.append((np.array(f1(q), dtype=float), np.array(f2(q), dtype=float)))
+            raw = [(f1(q), f2(q)) for q in queries]  # the caller keeps what it is handed and looks at it later
+            out = [(np.array(a_, dtype=float), np.array(b_, dtype=float)) for a_, b_ in raw]
             ref = []
             for q in outside:
                 for f in (f1, f2):
